@@ -28,7 +28,9 @@ func auxDir(lc bool) string {
 }
 
 func (r *Runner) auxCreate() string {
-	return classify(r.db.Create(&Aux{}, r.schema()))
+	c := r.cfg
+	c.Cust = 0 // (a custom schema describes the fields of the first collection's type)
+	return classify(r.db.Create(&Aux{}, schemaFor(c)))
 }
 
 func (r *Runner) xobj(slot int) *Aux {
